@@ -1,8 +1,14 @@
 /-
   C18 — Shutdown and failed start-up are orderly.
-  Property theorems over Model/Startup.lean (router `run`/`close`/`closeImpl`) and Model/Close.lean
-  (close protocol of the upstream transports).  Helper lemmas: Lemmas/StartupLemmas.lean, Lemmas/CloseLemmas.lean.
-  ★ marks the property theorems of DESIGN §5.
+
+  Models:  Model/Startup.lean  router `run` (sequential start with a closer list), `close` (sync.Once), `closeImpl`
+           Model/Close.lean    close protocol of the upstream transports (reuse / https tracker, pipelined, quic)
+           Model/Shutdown.lean a running router with traffic that is closed
+  Lemmas:  Lemmas/StartupLemmas, CloseLemmas (invariants), CloseHistory, CloseSpec, ShutdownLemmas.
+  ★ marks the property theorems of DESIGN §5 C18.  Every ★ theorem quantifies over all configurations / all
+  positions of the failing item / all operation sequences / all numbers of queries in flight — no bounds.
+  Promptness and absence of deadlock of the real code are observed by the harness with time-outs, not proved:
+  the models are sequentially consistent step machines (one step per lock acquisition / gate).
 -/
 import MosVerif.Lemmas.StartupLemmas
 import MosVerif.Lemmas.CloseSpec
